@@ -50,35 +50,46 @@ Theorem region_read_refines_image : forall (P : Type) (d : P) (e : list P) xdim 
 Proof. intros P. exact (@region_read_refines_lemma P). Qed.
 Print Assumptions region_read_refines_image.
 
-(** region_refines_image, write side -- PARTIAL.  Full statement (not proved):
-      forall e, length e = xdim*ydim -> rgn_inside xdim ydim r = true -> length data = r_cx r * r_cy r ->
-        gr_write_px (Some e) xdim ydim r f data = spec_write_px d e xdim ydim r data.
-    Proved here: the whole-image branch.  Missing lemma: the per-row / per-pixel Hseek+Hwrite streams
-    (solid_seek_ops, strided_seek_ops) equal apply_trace 1 data [(i*cx+j, (sy+i*ty)*xdim+sx+j*tx)] e, after
-    which apply_trace_nth / apply_trace_untouched (GRProofs.v) give the pointwise statement.  These two
-    branches rest on the R~M~S correspondence run (checks/C09.py), which compares results and call traces. *)
-Theorem region_write_refines_image_partial : forall (P : Type) (e : option (list P)) xdim ydim r (f : P) (data : list P),
-    whole_image xdim ydim r = true -> length data = xdim * ydim ->
-    (forall l, e = Some l -> length l = xdim * ydim) ->
-    gr_write_px e xdim ydim r f data = data.
-Proof. intros P. exact (@whole_write_lemma P). Qed.
-Print Assumptions region_write_refines_image_partial.
+(** region_refines_image (full): for every image, every region inside it and every data buffer, the Hseek/Hwrite
+    stream of GRwriteimage on an image that already has data (whole image; one seek+write per row of a solid
+    block; one per pixel when sub-sampling; offsets regenerated from mfgr.c) produces exactly the
+    height x width array in which the lattice points hold the data and every other pixel is unchanged; and
+    GRreadimage returns the lattice pixels of the array. *)
+Theorem region_refines_image : forall (P : Type) (d : P) (e data : list P) xdim ydim r (f : P),
+    length e = xdim * ydim -> rgn_inside xdim ydim r = true -> length data = r_cx r * r_cy r ->
+    gr_write_px (Some e) xdim ydim r f data = spec_write_px d e xdim ydim r data /\
+    gr_read_px e xdim ydim r = spec_read_px d e xdim r.
+Proof. exact region_refines_image_lemma. Qed.
+Print Assumptions region_refines_image.
 
-(** first_write_fills_image -- PARTIAL.  Full statement (not proved):
-      gr_write_px None xdim ydim r f data = spec_write_px d (repeat f (xdim*ydim)) xdim ydim r data.
-    Proved here, for both first-write branches (solid block and strided) and every region inside the image:
-    the stream never seeks and consists of exactly xdim*ydim pixels, so the new element covers the image
-    exactly -- the defect of DESIGN section 8 #7 (missing trailing rows / extra lines after the last row) is
-    excluded for the repaired code; wr_trail_from_1/wr_trail_to_1 exist only in the repaired source.
-    Missing lemma: pointwise contents of the stream (regrouping of the fill segments into rows); contents
-    rest on the correspondence run. *)
-Theorem first_write_fills_image_partial : forall (P : Type) (fl : list P) xdim ydim r (data : list P),
+(** first_write_fills_image (full): the first write of a new image -- one sequential stream of leading fill
+    lines, low block, rows with stride gaps, y-stride lines and high+low wrap-around, final high block and
+    trailing lines, for the solid and the sub-sampling branch -- produces exactly the array that holds the data
+    at the lattice points and the fill pixel everywhere else (never-written pixels equal the fill value).
+    wr_trail_from_1 / wr_trail_to_1 exist only in the repaired source (DESIGN section 8 #7). *)
+Theorem first_write_fills_image : forall (P : Type) (d f : P) (data : list P) xdim ydim r,
+    rgn_inside xdim ydim r = true -> length data = r_cx r * r_cy r ->
+    gr_write_px None xdim ydim r f data = spec_write_px d (repeat f (xdim * ydim)) xdim ydim r data.
+Proof. intros P. exact (@first_write_fills_image_lemma P). Qed.
+Print Assumptions first_write_fills_image.
+
+(** shape of that stream: it never seeks and has exactly xdim*ydim pixels *)
+Theorem first_write_stream_shape : forall (P : Type) (fl : list P) xdim ydim r (data : list P),
     length fl = xdim -> rgn_inside xdim ydim r = true -> whole_image xdim ydim r = false ->
     length data = r_cx r * r_cy r ->
     let ops := gr_write_ops true xdim ydim 1 r fl data in
     noseekb ops = true /\ wlen ops = xdim * ydim /\ run_wops ops [] 0 = (wdata ops, xdim * ydim).
 Proof. intros P. exact (@first_write_covers_image_lemma P). Qed.
-Print Assumptions first_write_fills_image_partial.
+Print Assumptions first_write_stream_shape.
+
+(** read after write (consequence used by the property text): what GRreadimage returns after a region write
+    is the written data on the common lattice points *)
+Theorem read_after_write_same_region : forall (P : Type) (d : P) (e data : list P) xdim ydim r (f : P),
+    length e = xdim * ydim -> rgn_inside xdim ydim r = true -> length data = r_cx r * r_cy r ->
+    gr_read_px (gr_write_px (Some e) xdim ydim r f data) xdim ydim r =
+    spec_read_px d (spec_write_px d e xdim ydim r data) xdim r.
+Proof. exact read_after_write_lemma. Qed.
+Print Assumptions read_after_write_same_region.
 
 (** Palettes: GRreadlut with a requested interlace returns the closed-form permutation of the 256 x 3 entries
     written (geometry 1 x nentries regenerated from GRreadlut); pixel and line interlace coincide. *)
@@ -87,6 +98,18 @@ Theorem lut_read_correct : forall (A : Type) (d : A) lil (l dst : list A),
     il_convert_walk ILpixel lil (lut_dimX 256) (lut_dimY 256) 3 1 l dst = il_convert_spec d ILpixel lil 1 256 3 1 l.
 Proof. intros A. exact (@lut_read_lemma A). Qed.
 Print Assumptions lut_read_correct.
+
+(** Old-style RLE rasters (dfrle.c; run window, run threshold, literal flush limit, flag and mask regenerated from
+    the source): DFCIunrle (DFCIrle row) = row for EVERY byte row, and row-by-row for every image
+    (DFputcomp / DFgetcomp as used by hcompri.c when such a raster is read through GRreadimage). *)
+Theorem dfrle_roundtrip : forall row : list nat, dfrle_decode (dfrle_encode row) = row.
+Proof. exact dfrle_roundtrip_lemma. Qed.
+Print Assumptions dfrle_roundtrip.
+
+Theorem rle_image_roundtrip : forall w h bytes,
+    length bytes = w * h -> rle_image_decode (rle_image_encode w h bytes) = bytes.
+Proof. exact rle_image_roundtrip_lemma. Qed.
+Print Assumptions rle_image_roundtrip.
 
 (** Non-vacuity and concrete instances. *)
 Example walk_line_to_pixel :
@@ -113,3 +136,7 @@ Example solid_first_write :
   let r := {| r_sx := 1; r_sy := 2; r_tx := 1; r_ty := 1; r_cx := 2; r_cy := 2 |} in
   gr_write_px None 4 5 r 9 [1;2;3;4] = spec_write_px 0 (repeat 9 20) 4 5 r [1;2;3;4].
 Proof. vm_compute. reflexivity. Qed.
+Example rle_long_run :
+  dfrle_encode (repeat 7 130 ++ [1; 2; 2; 2; 2]) = [248; 7; 138; 7; 1; 1; 132; 2]
+  /\ dfrle_decode [248; 7; 138; 7; 1; 1; 132; 2] = repeat 7 130 ++ [1; 2; 2; 2; 2].
+Proof. vm_compute. auto. Qed.
